@@ -6,6 +6,7 @@ import RbV.Model.OrfScan
 import RbV.Lemmas.OrfScan
 import RbV.Lemmas.OrfScanP
 import RbV.Thm.GenSrcOrf
+import RbV.Thm.GenSrcGc
 /-!
 # C20 — ORF finder, complements, alphabets / rank transform, GC content
 
@@ -346,5 +347,27 @@ theorem gc_tolerance_iff (p q c l : Nat) :
     Gc.within1e6 p q c l = true ↔
       ((p : Int) * l - c * q) * 1000000 ≤ q * l ∧ ((c : Int) * q - p * l) * 1000000 ≤ q * l :=
   Gc.within1e6_iff p q c l
+
+/-! ### the source text of `gcn_content` (translated on every run, `Gen/SrcGc.lean`)
+
+The integer part of the GC functions is tied by a theorem about the source text; the `f32` conversion and division are
+abstract parameters (`toF32`, `fdiv`) of the translated definition and stay with the numerical clause of the driver. -/
+
+/-- `gc_content` as written in the source (`gcn_content(sequence, 1)`): for a sequence shorter than `2^64` it divides the
+number of `C G c g` symbols by the length, both converted to `f32` -/
+theorem gc_content_source_counts {F : Type} (toF32 : Nat → F) (fdiv : F → F → F) (s : List Nat) (hlen : s.length < 2 ^ 64) :
+    Gen.SrcGc.gcnContent toF32 fdiv s 1 = Rs.Res.ok (fdiv (toF32 (Gc.gcCount s)) (toF32 s.length)) := by
+  rw [GenSrcGc.gcnContent_eq_model toF32 fdiv s 1 (by omega) hlen, Rs.stepByGo_one]
+
+/-- `gc3_content` as written in the source (`gcn_content(sequence, 3)`): the same over the symbols at positions
+`0, 3, 6, …` — the reading `every3 · 0` the driver accepts first -/
+theorem gc3_content_source_counts {F : Type} (toF32 : Nat → F) (fdiv : F → F → F) (s : List Nat) (hlen : s.length < 2 ^ 64) :
+    Gen.SrcGc.gcnContent toF32 fdiv s 3
+      = Rs.Res.ok (fdiv (toF32 (Gc.gcCount (Gc.every3 s 0))) (toF32 (Gc.every3 s 0).length)) := by
+  rw [GenSrcGc.gcnContent_eq_model toF32 fdiv s 3 (by omega) hlen, GenSrcGc.stepByGo3_eq_every3]
+
+-- GATATACA: 2 of 8; positions 0, 3, 6 = G A C: 2 of 3 (the documented example)
+example : Gen.SrcGc.gcnContent (F := Nat × Nat) (fun n => (n, 1)) (fun a b => (a.1, b.1)) [71, 65, 84, 65, 84, 65, 67, 65] 3
+    = Rs.Res.ok (2, 3) := by decide
 
 end RbV.Thm.C20
